@@ -123,12 +123,12 @@ pub fn web_body(frames: &[(u8, Vec<u8>)], trailers: &[(String, Vec<u8>)], space_
 
 pub fn run(cfg: &RunCfg) -> Ctx {
     let mut all = Ctx::new();
-    all.merge(par_cases(cfg, "complete", cfg.n(20_000, 16 * 50_000), || (), |_, rng, ctx, _| complete_case(rng, ctx, false)));
+    all.merge(par_cases(cfg, "complete", cfg.n(20_000, 16 * 1_000_000), || (), |_, rng, ctx, _| complete_case(rng, ctx, false)));
     if !crate::ctx::small() {
-        all.merge(par_cases(cfg, "allcuts", cfg.n(100, 400), || (), |_, rng, ctx, _| complete_case(rng, ctx, true)));
+        all.merge(par_cases(cfg, "allcuts", cfg.n(100, 4000), || (), |_, rng, ctx, _| complete_case(rng, ctx, true)));
     }
-    all.merge(par_cases(cfg, "truncate", cfg.n(200, 800), || (), |_, rng, ctx, _| truncate_case(rng, ctx)));
-    all.merge(par_cases(cfg, "request", cfg.n(1200, 16 * 2000), || (), |_, rng, ctx, _| request_case(rng, ctx)));
+    all.merge(par_cases(cfg, "truncate", cfg.n(200, 8000), || (), |_, rng, ctx, _| truncate_case(rng, ctx)));
+    all.merge(par_cases(cfg, "request", cfg.n(1200, 16 * 20_000), || (), |_, rng, ctx, _| request_case(rng, ctx)));
     for k in ["cut.inside_frame_header", "cut.inside_trailers_frame", "chunk.message_and_trailers_together", "trailers.colon_in_value", "trailers.repeated_name", "trunc.inside_frame", "trunc.on_boundary", "observed.trailers_recovered"] {
         all.floor(k, 5);
     }
